@@ -137,7 +137,10 @@ def gen_doc(rng, shape=None, max_subnets=5, max_hosts=4, n_public=None,
         doc[kname] = rng.choice(scan_costs)
     # hosts
     hosts = {}
-    for a in addrs:
+    host_order = list(addrs)
+    if rng.random() < 0.2:
+        rng.shuffle(host_order)     # declaration order is free in the format
+    for a in host_order:
         h = {"os": rng.choice(oss),
              "services": rng.sample(srvs, rng.randint(1, len(srvs))),
              "processes": rng.sample(procs, rng.randint(0, len(procs)))}
